@@ -35,3 +35,63 @@ pub open spec fn has_room(v: Seq<BasicBlock>, i: usize) -> bool {
     && bb_succs(b).len() < succ_limit(b)
     && (ends_in_branch(b) && false_target(b) is Some ==> true_target(b) == v.len())
 }
+
+
+// ---- the graph-shape part of the invariant (proved): indices, mirrored edges inside the vector, entry without
+// predecessors, every other block has a predecessor with a smaller index (hence: reachable from the entry, and a
+// dominator of a block never has a larger index)
+pub open spec fn shape_block(v: Seq<BasicBlock>, k: int) -> bool {
+    let b = v[k];
+    &&& bb_index(b) == k
+    &&& (forall|q: usize| #[trigger] bb_preds(b).contains(q) ==> q < v.len() && bb_succs(v[q as int]).contains(k as usize))
+    &&& (forall|s: usize| #[trigger] bb_succs(b).contains(s) ==> s < v.len() && bb_preds(v[s as int]).contains(k as usize))
+    &&& (k == 0 ==> bb_preds(b) =~= Set::<usize>::empty())
+    &&& (k > 0 ==> exists|q: usize| #[trigger] bb_preds(b).contains(q) && q < k)
+}
+pub open spec fn shape(v: Seq<BasicBlock>) -> bool {
+    v.len() >= 1 && forall|k: int| 0 <= k < v.len() ==> #[trigger] shape_block(v, k)
+}
+pub open spec fn in_range(s: Set<usize>, n: int) -> bool { forall|i: usize| s.contains(i) ==> i < n }
+
+// state of the vector inside complete_basic_block: v0 = vector at entry (n blocks), j = n the new block,
+// `seen` = predecessors already connected
+pub open spec fn mid(v0: Seq<BasicBlock>, v: Seq<BasicBlock>, seen: Set<usize>, depth: usize) -> bool {
+    let n = v0.len() as int;
+    &&& v.len() == n + 1
+    &&& (forall|k: int| 0 <= k < n ==> bb_index(#[trigger] v[k]) == bb_index(v0[k]) && bb_preds(v[k]) =~= bb_preds(v0[k]) && bb_depth(v[k]) == bb_depth(v0[k])
+            && bb_succs(v[k]) =~= (if seen.contains(k as usize) { bb_succs(v0[k]).insert(n as usize) } else { bb_succs(v0[k]) }))
+    &&& bb_index(v[n]) == n
+    &&& bb_depth(v[n]) == depth
+    &&& bb_preds(v[n]) =~= seen
+    &&& bb_succs(v[n]) =~= Set::<usize>::empty()
+    &&& bb_stmts(v[n]) =~= Seq::<Statement>::empty()
+}
+
+pub proof fn lemma_mid_shape(v0: Seq<BasicBlock>, v: Seq<BasicBlock>, seen: Set<usize>, depth: usize)
+    requires shape(v0), mid(v0, v, seen, depth), in_range(seen, v0.len() as int), exists|q: usize| seen.contains(q)
+    ensures shape(v)
+{
+    let n = v0.len() as int;
+    assert forall|k: int| 0 <= k < v.len() implies #[trigger] shape_block(v, k) by {
+        if k < n {
+            assert(shape_block(v0, k));
+            assert forall|q: usize| #[trigger] bb_preds(v[k]).contains(q) implies q < v.len() && bb_succs(v[q as int]).contains(k as usize) by {
+                assert(bb_preds(v0[k]).contains(q));
+                assert(shape_block(v0, q as int));
+            }
+            assert forall|s: usize| #[trigger] bb_succs(v[k]).contains(s) implies s < v.len() && bb_preds(v[s as int]).contains(k as usize) by {
+                if s == n { assert(seen.contains(k as usize)); } else { assert(bb_succs(v0[k]).contains(s)); assert(shape_block(v0, s as int)); }
+            }
+            if k > 0 {
+                let q = choose|q: usize| #[trigger] bb_preds(v0[k]).contains(q) && q < k;
+                assert(bb_preds(v[k]).contains(q));
+            }
+        } else {
+            let q = choose|q: usize| seen.contains(q);
+            assert(bb_preds(v[k]).contains(q) && q < k);
+            assert forall|q2: usize| #[trigger] bb_preds(v[k]).contains(q2) implies q2 < v.len() && bb_succs(v[q2 as int]).contains(k as usize) by {
+                assert(seen.contains(q2));
+            }
+        }
+    }
+}
